@@ -186,7 +186,7 @@ def data_features(judge, case, upto, workdir):
 def run(chk):
     chk.rule = ("histories from tools/gen_mip.py (seeded): a problem drawn from a family aimed at one branch of the solver (bounded all-integer boxes, "
                 "random rows, degenerate vertices, free variables, equalities, redundant rows, slab without integer point under an unbounded relaxation, "
-                "unbounded relaxation with fractional vertex, thin regions needing several branchings, objective parallel to a facet, dimension 0/1, linearly dependent / duplicated / scaled equalities at every position through a degenerate vertex) "
+                "unbounded relaxation with fractional vertex, thin regions needing several branchings, objective parallel to a facet, dimension 0/1, linearly dependent / duplicated / scaled equalities at every position through a degenerate vertex, cones / pyramids in 3-5 variables with >= d+2 constraints tight at the apex) "
                 "turned into a history by a shape (constructor + solve; constraints one by one with is_satisfiable() every k-th; solve / change objective, "
                 "mode, constraints, pricing / solve again; random interleaving of all mutators and queries; solve or is_satisfiable, THEN new space dimensions whose variables have their own sign / boundedness pattern, constraints on them, new objective, re-solves), pricing rule cycling over the three values; "
                 "1-4 variables, coefficients in [-5,5]; a case is distinct by the text of its history and non-trivial when at least one of its queries "
@@ -221,7 +221,8 @@ def run(chk):
             k, meta2 = gen_mip.known_family(chk.seed * 104729 + 6, n_known)
             de, meta3 = gen_mip.depeq_cases(chk.seed * 15485863 + 6, 450 if chk.quick else 12000)
             da, meta4 = gen_mip.dims_after(chk.seed * 32452843 + 6, 450 if chk.quick else 12000)
-            lines += g + k + de + da
+            dg, meta5 = gen_mip.degenerate_cases(chk.seed * 49979687 + 6, 400 if chk.quick else 16000)
+            lines += g + k + de + da + dg
         budget = 2.0 if chk.quick else 4.0
         out = run_all(exe, judge, lines, work, "c06", budget)
     finally:
